@@ -1215,6 +1215,29 @@ def run_robust_base(idx, base, wd, profile):
             "inputs": cases, "crashed": crashed, "crash_input": crash_input if crashed else None}
 
 
+def run_amplify(param, wd, profile):
+    """one member of the amplification family (harness/src/amplify.rs), measured and judged like any other execution"""
+    tp = os.path.join(wd, "amplify-%s-%s.ndjson" % (profile, param.replace(",", "_")))
+    exe = build_harness(profile)
+    rc, out = run([exe, "amplify-run", tp, param], timeout=900)
+    if rc == 97:
+        hev = json.load(open(tp + ".hang"))
+        hev["input"] = []
+        with open(tp, "w") as f:
+            f.write(json.dumps({"e": "reset", "id": "amplify-" + param}) + "\n")
+            f.write(json.dumps(hev) + "\n")
+    elif rc != 0:
+        am = re.search(r"memory allocation of (\d+) bytes failed", out)
+        with open(tp, "w") as f:
+            f.write(json.dumps({"e": "reset", "id": "amplify-" + param}) + "\n")
+            f.write(json.dumps({"e": "crash", "signal": rc, "last": "amplify " + param, "alloc": min(int(am.group(1)), 0x7fffffff) if am else 0}) + "\n")
+    r = tlc_trace("Trace_Total", tp, wd, timeout=600)
+    if not r["accepted"]:
+        raise ToolError("Trace_Total did not consume the trace of amplify %s:\n%s" % (param, r["raw_tail"][:2000]))
+    return {"idx": -1, "profile": profile, "cases": 1, "events": r["distinct"], "fails": r["fails"], "inputs": {}, "crashed": rc != 0,
+            "amplify": param}
+
+
 def robust_suite(tier):
     key = "%s-%s-%d" % (tree_hash(), tier, seed())
     cdir = os.path.join(OUT, "cache")
@@ -1238,6 +1261,9 @@ def robust_suite(tier):
     jobs = [(i, b, p) for p in ("debug", "release") for i, b in enumerate(bases)]
     with ThreadPoolExecutor(max_workers=12) as ex:
         rs = list(ex.map(lambda j: run_robust_base(j[0], j[1], wd, j[2]), jobs))
+    # amplification family: T tracks whose parameter-set records all reach into one shared region
+    amps = ["90,30,hevc", "90,30,avc", "30,60,hevc", "12,254,avc"] + (["90,200,hevc", "90,200,avc"] if tier == "thorough" else [])
+    rs += [run_amplify(a, wd, p) for p in ("debug", "release") for a in amps]
     res = {"stats": stats, "bases": [{"kind": b["kind"], "len": len(b["file"]), "fields": len(b["fields"]), "plan": {k: v for k, v in b["plan"].items()}} for b in bases],
            "executions": sum(x["cases"] for x in rs), "events": sum(x["events"] for x in rs), "fails": [], "wall": time.time() - t0}
     for x in rs:
@@ -1254,6 +1280,10 @@ def robust_suite(tier):
                         if ev:
                             inp = ev
                             break
+                if x.get("amplify"):
+                    f["input"] = {"amplify": x["amplify"]}
+                    res["fails"].append(f)
+                    continue
                 f["input"] = {"file": inp["input"], "init": bases[x["idx"]].get("init"), "mode": inp["mode"], "kind": bases[x["idx"]]["kind"],
                               "what": inp["what"]} if inp else None
                 if not inp and x.get("crash_input"):
@@ -1270,12 +1300,16 @@ def robust_check(prop, tier, replay, level, text_rule):
     if replay:
         wd = workdir(prop + "-replay")
         c = json.load(open(replay))
-        base = {"file": c["file"], "kind": "replay", "fields": [], "plan": {"seed": 1, "region": [0, 0], "single": {"widths": [], "stride": 1}, "pairs": 0, "havoc": 0}}
-        if c.get("init"):
-            base["init"] = c["init"]
         fails = []
-        for p in ("debug", "release"):
-            fails += run_robust_base(0, base, wd, p)["fails"]
+        if "amplify" in c:
+            for p in ("debug", "release"):
+                fails += run_amplify(c["amplify"], wd, p)["fails"]
+        else:
+            base = {"file": c["file"], "kind": "replay", "fields": [], "plan": {"seed": 1, "region": [0, 0], "single": {"widths": [], "stride": 1}, "pairs": 0, "havoc": 0}}
+            if c.get("init"):
+                base["init"] = c["init"]
+            for p in ("debug", "release"):
+                fails += run_robust_base(0, base, wd, p)["fails"]
         res = {"fails": [dict(f, input=c, base=0, profile="?") for f in fails], "executions": 2, "events": 2, "stats": [], "bases": [], "wall": 0}
     else:
         res = robust_suite(tier)
@@ -1289,6 +1323,8 @@ def robust_check(prop, tier, replay, level, text_rule):
             kn.append(k["what"])
             continue
         name = hashlib.sha1(json.dumps(f.get("detail")).encode()).hexdigest()[:10]
+        if isinstance(f.get("input"), dict) and "amplify" in f["input"]:
+            name = "amplify-" + f["input"]["amplify"].replace(",", "-")
         path = write_replay(prop, "robust-" + name, f.get("input") or {"note": "worker crash; see trace", "detail": f.get("detail")})
         viol.append((path, text))
     cov = {"evaluations": max(1, res["executions"]), "distinct_nontrivial": max(2, res["executions"] - 2 * len(res["bases"])),
